@@ -35,7 +35,7 @@ Print Assumptions C16_exhaustion_reported.
 (* with a budget that is not exhausted the result is that of the specification, whose
    counter is the same counter *)
 Theorem C16_same_as_ref_under_budget : forall c,
-  has_state (cT c) = true -> o_memoize (cO c) = false -> G_wf c -> stale_ok c -> t_leftrec (cT c) = false ->
+  state_ok c -> o_memoize (cO c) = false -> G_wf c -> stale_ok c -> t_leftrec (cT c) = false ->
   forall fuel, obs_equiv (parse c fuel) (rparse c fuel).
 Proof. exact parse_refines_rparse. Qed.
 Print Assumptions C16_same_as_ref_under_budget.
